@@ -139,3 +139,13 @@ Definition run_template (c : json) : option json :=
               ("shocks", JObj (map (fun sg => (fst sg, match shock_shape m (fst sg) with
                                                         | Some sh => of_list of_nat sh | None => JNull end))
                                    (stoch_states m)))]).
+
+(* ---- which state is stored where (C10: comparing solutions of rewritten models) ------------ *)
+Definition run_layout_map (c : json) : option json :=
+  do m <- jfield_of jmodel "model" c ;; do p <- jfield_of jparams "params" c ;;
+  Some (of_list (fun t =>
+          JObj [("shape", of_list of_nat (expected_shape m p t));
+                ("states", of_list (fun idx =>
+                     of_list (fun sg => JList [JStr (fst sg); of_nat (ilook (state_at m p t idx) (fst sg))]) (states m))
+                   (indices (expected_shape m p t)))])
+        (seq 0 (n_periods m))).
